@@ -33,7 +33,7 @@ Theorem C11_deactivated_client_is_out : forall s c,
   client_active s' c = false /\
   (forall d g st, doc_status s' c d = Some (g, st) -> attached_like st = false) /\
   (forall d n, fst (lstep s' (LPushPull c d n)) = false /\ fst (lstep s' (LDetach c d n)) = false /\
-               fst (lstep s' (LRemove c d n)) = false /\ fst (lstep s' (LAttach c d)) = false).
+               fst (lstep s' (LRemove c d n)) = false /\ fst (lstep s' (LAttach c d n)) = false).
 Proof. exact deactivated_client_is_out. Qed.
 Print Assumptions C11_deactivated_client_is_out.
 
